@@ -36,7 +36,7 @@ def render(hist):
         elif k == "unset":
             lines.append("unset %s" % op["n"])
         elif k == "read":
-            lines.append("read %s %s <<< 'x y z'" % (op["n1"], op["n2"]))
+            lines.append("read %s <<< '%s'" % (" ".join(op["ns"]), " ".join(["x", "y", "z", "w"][:op["m"]])))
         elif k == "cd":
             lines.append(("cd " + CDARG[op["a"]]).rstrip())
             lines.append("vmk ST%d 0 $?" % i)
@@ -104,7 +104,7 @@ def runner(rep, tier, seed, replay):
     r = run_tlc("MCEnvDir0", "MCEnvDir0", timeout=3000)
     if r.violation:
         raise ToolError("the coded lookup orders disagree with the reference scoping:\n" + r.violation[:2500])
-    check_action_coverage(r, ["Assign", "Prefix", "Export", "UnsetVar", "Read2", "Cd"])
+    check_action_coverage(r, ["Assign", "Prefix", "Export", "UnsetVar", "ReadN", "Cd"])
     rep.add_tlc(r)
     hists = []
     n = 250 if tier == "quick" else 6000
@@ -143,7 +143,7 @@ def runner(rep, tier, seed, replay):
     rep.cov["operations_observed"] = nops
     rep.assumptions += ["values are written in one quoting style (single quotes, double quotes when the value has a single quote)",
                         "the directory tree is R/a, R/a/b, R/h ($HOME), symlink R/l -> a/b, file R/f; the shell starts in R/a with PWD set",
-                        "read is given the fixed line 'x y z'"]
+                        "read is given the first 0..4 of the fields x y z w, with 1..3 names (repetitions allowed)"]
     return rep.finish(rule="every history of 3 (thorough 4) operations on one name, exhaustive, and TLC-simulated histories of 30 operations (assignment, prefixed command, export, unset, read, cd with absolute / "
                            "relative / .. / symlink / no argument / - / file / missing / .) over names {A, B, AB, _x} and values {empty, "
                            "'v w', 'p=q:r', q'r, x}, each followed by an observation command; non-trivial = every history; distinct by text")
